@@ -67,7 +67,7 @@ func c04Scripts(tier string) []uciParams {
 	for ei, e := range engs {
 		for si, st := range c04Setups() {
 			for gi, g := range gos {
-				if tier != "thorough" && e.name != "plain" && (ei+si+gi)%3 != 0 {
+				if tier != "thorough" && e.name != "plain" && (ei+si+gi)%4 != 0 {
 					continue // quick: every engine sees every set-up and every go variant, but not every combination
 				}
 				if e.name != "plain" && st.name == "fortress-moves" && tier != "thorough" {
@@ -111,7 +111,7 @@ func init() {
 					}
 				}
 				if !hasRelease {
-					for _, timer := range []int{0, 40, 1 << 30} {
+					for _, timer := range []int{0, 40, 160} {
 						q := p
 						q.Timer = timer
 						out = append(out, uciScenario(q))
@@ -122,7 +122,7 @@ func init() {
 					continue
 				}
 				l := measure(p)
-				stride := 16
+				stride := 24
 				if tier == "thorough" {
 					stride = 4
 				}
